@@ -89,6 +89,8 @@ fn len_strategy(big: usize) -> impl Strategy<Value = usize> {
         3 => prop::sample::select(vec![65535usize, 65536, 65537]),
         2 => (1usize..=4, 0usize..3).prop_map(|(k, d)| k * 65536 + d - 1),
         2 => 400usize..20_000,
+        2 => (prop::sample::select(vec![128usize, 16384]), 0usize..80).prop_map(|(b, d)| b + d - 40),
+        1 => (0usize..80).prop_map(|d| (1usize << 21) + d - 60),
         1 => (any::<u16>()).prop_map(move |s| pick(s, 20_000, big as u64) as usize),
     ]
 }
@@ -152,6 +154,7 @@ impl Property for C04 {
             ("len:1", 50 * m),
             ("len:65535..65537", 300 * m),
             ("len:k*64KiB+-1", 200 * m),
+            ("len:~2MiB (4-byte index integers)", 100 * m),
             ("codec:lzma/marker", 500 * m),
             ("codec:lzma/size", 500 * m),
             ("codec:lzma/skip", 500 * m),
@@ -172,6 +175,7 @@ impl Property for C04 {
             2..=399 => "len:2..399",
             65535..=65537 => "len:65535..65537",
             x if x >= 65535 && (x % 65536 <= 1 || x % 65536 == 65535) => "len:k*64KiB+-1",
+            x if x >= (1 << 21) - 100 && x <= (1 << 21) + 100 => "len:~2MiB (4-byte index integers)",
             400..=19_999 => "len:400..20k",
             _ => "len:>=20k",
         });
